@@ -17,14 +17,14 @@ Definition is_target (z : Z) : bool := existsb (Z.eqb z) targets.       (* CPXTa
 Definition is_function (z : Z) : bool := existsb (Z.eqb z) functions.   (* CPXFunction(z) does not raise *)
 
 (* ---------------------------------------------------------------- Python outcomes *)
-Inductive exc := StructError | RuntimeErr | ValueErr | EndOfStream.
+Inductive exc := StructError | RuntimeErr | ValueErr | EndOfStream | AttributeErr.
 Inductive res (A : Type) := Ok (a : A) | Exc (e : exc).
 Arguments Ok {A} a.
 Arguments Exc {A} e.
 
 (* ---------------------------------------------------------------- CPXPacket *)
 (* c_len is the attribute `length`: set by the constructor and by _set_wire_data, NOT updated when
-   `data` is assigned later; writePacket uses it for the length prefix. *)
+   `data` is assigned later.  writePacket (after fix F18b) builds the prefix from len(data), not from it. *)
 Record cpx := mk_cpx {
   c_src : Z; c_dst : Z; c_fn : Z; c_last : bool; c_ver : Z; c_len : Z; c_data : list Z }.
 
@@ -62,11 +62,31 @@ Definition set_wire (data : list Z) : res cpx :=
   end.
 
 (* ---------------------------------------------------------------- SocketTransport *)
-(* writePacket: struct.pack('H', packet.length+2) (native order = little-endian here; struct.error
-   outside 0..65535) followed by wireData, handed to socket.send in ONE call *)
-Definition frame (p : cpx) : list Z := le_bytes 2 (c_len p + 2) ++ wire_data p.
+(* writePacket: struct.pack('H', len(packet.data)+2) (native order = little-endian here; struct.error
+   above 65535) followed by wireData, handed to socket.sendall (fix F18a; before: one send call whose
+   return value was ignored) *)
+Definition frame (p : cpx) : list Z := le_bytes 2 (zlen (c_data p) + 2) ++ wire_data p.
 Definition write_packet (p : cpx) : res (list Z) :=
-  if (0 <=? c_len p + 2) && (c_len p + 2 <=? 65535) then Ok (frame p) else Exc StructError.
+  if zlen (c_data p) + 2 <=? 65535 then Ok (frame p) else Exc StructError.
+
+(* The sending side of the socket: each send(buf) call takes some number of bytes (the next entry of
+   `takes`, at most len(buf); no entry left: everything).  sendall = `while buf: n = send(buf); buf = buf[n:]`.
+   Result: the bytes that reach the stream. *)
+Fixpoint sendall (takes : list Z) (buf : list Z) : list Z :=
+  match takes with
+  | [] => buf
+  | t :: ts => if zlen buf <=? t then buf
+               else firstn (Z.to_nat t) buf ++ sendall ts (skipn (Z.to_nat t) buf)
+  end.
+(* the behaviour before F18a: one send, return value ignored *)
+Definition send_once (takes : list Z) (buf : list Z) : list Z :=
+  match takes with
+  | [] => buf
+  | t :: _ => if zlen buf <=? t then buf else firstn (Z.to_nat t) buf
+  end.
+(* bytes put on the stream by writePacket *)
+Definition tx_packet (takes : list Z) (p : cpx) : res (list Z) :=
+  match write_packet p with Ok b => Ok (sendall takes b) | Exc e => Exc e end.
 
 (* The socket: the bytes still to come, cut into the pieces successive recv calls will see.
    recv(n), n > 0, returns the first piece if it has at most n bytes, otherwise its first n bytes
@@ -188,7 +208,7 @@ Definition tunnel_rx (p : cpx) : option crtp :=
 
 (* ---------------------------------------------------------------- encodings for the correspondence step *)
 Definition enc_exc (e : exc) : Z :=
-  match e with StructError => 1 | RuntimeErr => 2 | ValueErr => 3 | EndOfStream => 4 end.
+  match e with StructError => 1 | RuntimeErr => 2 | ValueErr => 3 | EndOfStream => 4 | AttributeErr => 5 end.
 Definition enc_cpx (p : cpx) : list Z :=
   [c_src p; c_dst p; c_fn p; (if c_last p then 1 else 0); c_ver p; c_len p; zlen (c_data p)] ++ c_data p.
 Definition enc_res (r : res cpx) : list Z :=
@@ -221,6 +241,14 @@ Fixpoint all_chunkings (b : list Z) : list sock :=
 Definition wf_cpx (p : cpx) : Prop :=
   In (c_src p) targets /\ In (c_dst p) targets /\ In (c_fn p) functions /\ c_ver p = 0 /\
   c_len p = zlen (c_data p) /\ c_len p <= 65533.
+
+(* the same without the `length` attribute: a packet object whose data was assigned after construction *)
+Definition wf_attrs (p : cpx) : Prop :=
+  In (c_src p) targets /\ In (c_dst p) targets /\ In (c_fn p) functions /\ c_ver p = 0 /\
+  zlen (c_data p) <= 65533.
+(* what the receiver sees: `length` refreshed by _set_wire_data *)
+Definition refresh (p : cpx) : cpx :=
+  mk_cpx (c_src p) (c_dst p) (c_fn p) (c_last p) (c_ver p) (zlen (c_data p)) (c_data p).
 
 (* s is a fragmentation of the byte string b: consecutive non-empty pieces *)
 Definition chunking (s : sock) (b : list Z) : Prop := concat s = b /\ Forall (fun c => c <> []) s.
@@ -279,3 +307,66 @@ Inductive read_packet_any (b : list Z) : res cpx -> list Z -> Prop :=
 Inductive read_n_any : list Z -> list (res cpx) -> list Z -> Prop :=
 | rn_nil b : read_n_any b [] b
 | rn_cons b r b1 rs b2 : read_packet_any b r b1 -> read_n_any b1 rs b2 -> read_n_any b (r :: rs) b2.
+
+(* ---------------------------------------------------------------- the CPX facade with the router thread *)
+(* CPX(transport): router thread started; sendPacket / receivePacket / makeTransaction / close.
+   CPump = the router thread performs one iteration of run(); CTransact p k = makeTransaction(p) during
+   which the router thread performs k iterations. *)
+Inductive cev := CPump | CRecv (f : Z) | CSend (p : cpx) | CTransact (p : cpx) (k : nat) | CClose.
+Inductive cobs :=
+| ORecv (f : Z) (r : option cpx)
+| OSent (b : res (list Z))
+| OTrans (b : res (list Z)) (r : option cpx)     (* None: the call is still blocked in queue.get() *)
+| OClose (ok : bool).
+
+Record cstate := mk_cs { cs_in : sock; cs_rt : rstate; cs_open : bool }.
+
+Definition c_pump (c : cstate) : cstate :=
+  if cs_open c then
+    let '(r, s1) := read_packet (cs_in c) in
+    mk_cs s1 (fst (r_step (cs_rt c) (Arrive r))) true
+  else c.                                                  (* thread has left run() *)
+
+Fixpoint c_pumps (k : nat) (c : cstate) : cstate :=
+  match k with O => c | S k' => c_pumps k' (c_pump c) end.
+
+Definition c_step (takes : list Z) (c : cstate) (e : cev) : cstate * list cobs :=
+  match e with
+  | CPump => (c_pump c, [])
+  | CRecv f =>
+      let '(st1, o) := r_step (cs_rt c) (Recv f) in
+      (mk_cs (cs_in c) st1 (cs_open c), map (fun x : obs => ORecv (fst x) (snd x)) o)
+  | CSend p =>
+      (c, [OSent (if cs_open c then tx_packet takes p else Exc AttributeErr)])
+  | CTransact p k =>
+      if cs_open c then
+        match tx_packet takes p with
+        | Exc e => (c, [OTrans (Exc e) None])
+        | Ok b =>
+            let f := c_fn p in
+            let st0 := match cs_rt c f with None => upd (cs_rt c) f [] | Some _ => cs_rt c end in
+            let c1 := c_pumps k (mk_cs (cs_in c) st0 true) in
+            match cs_rt c1 f with
+            | Some (r :: q) => (mk_cs (cs_in c1) (upd (cs_rt c1) f q) (cs_open c1), [OTrans (Ok b) (Some r)])
+            | _ => (c1, [OTrans (Ok b) None])
+            end
+        end
+      else (c, [OTrans (Exc AttributeErr) None])
+  | CClose => (mk_cs (cs_in c) (cs_rt c) false, [OClose (cs_open c)])
+  end.
+
+Fixpoint c_run (takes : list Z) (c : cstate) (evs : list cev) : cstate * list cobs :=
+  match evs with
+  | [] => (c, [])
+  | e :: evs' => let '(c1, o1) := c_step takes c e in
+                 let '(c2, o2) := c_run takes c1 evs' in (c2, o1 ++ o2)
+  end.
+
+Definition enc_opt (o : option cpx) : list Z := match o with None => [0] | Some p => 1 :: enc_cpx p end.
+Definition enc_cobs (o : cobs) : list Z :=
+  match o with
+  | ORecv f r => 20 :: f :: enc_opt r
+  | OSent b => 21 :: enc_resb b
+  | OTrans b r => 22 :: enc_resb b ++ enc_opt r
+  | OClose ok => [23; if ok then 1 else 0]
+  end.
